@@ -418,8 +418,21 @@ def r_cmd_shapes(ctx):
         dstar = [unparse(k.value) for k in call.keywords if k.arg is None]
         idx = unparse(call.func.slice)
         okc = idx == names[0] and star == [names[1]] and bool(dstar)
+        # the keyword component reaches the call: it is the ** dict itself or merged into it (`kwargs.update(newKwArgs)`)
+        if okc:
+            merged = dstar[0] == names[2] or any(
+                isinstance(c_, ast.Call) and isinstance(c_.func, ast.Attribute) and c_.func.attr == 'update' and unparse(c_.func.value) == dstar[0]
+                and c_.args and unparse(c_.args[0]) == names[2] for c_ in ast.walk(d.node))
+            if not merged:
+                okc = False
+                ctx.violation('%s:keyword-component-dropped' % d.qualname, d.loc(R.dispatch_call),
+                              'the keyword-argument component `%s` of a command never reaches `**%s` of the dispatch call: keyword arguments are pickled, replicated and then ignored on '
+                              'every node' % (names[2], dstar[0]), instance=inst)
+                okc = None
     if okc:
         ctx.ok(inst, d.loc(R.dispatch_call), 'table[id](*args, **kwargs)')
+    elif okc is None:
+        pass
     else:
         ctx.violation('%s:command-component-order' % d.qualname, d.loc(R.dispatch_call), 'the dispatcher does not use the components in the packed order (id, args, kwargs)', instance=inst)
     # reserved keywords popped before dumps
